@@ -449,5 +449,12 @@ _meta_add("C10", functions=["sync::Replica::sync_process_message::{closure#0} (a
           assumptions=["ranger::Message::value_count uninterpreted; counter arithmetic as uninterpreted plus / minus (overflow of a usize counter of in-memory messages out of scope)"])
 _meta_add("C01", functions=["sync::Replica::sync_process_message::{closure#0}::{closure#0} (validate callback, query c03_reconcile_validation)", "store::fs::StoreInstance::remove_prefix_filtered (query c02_remove_prefix)",
                             "sync::Replica::sync_process_message::{closure#0} counters (query c10_step_counts)"])
+_meta_add("C03", functions=["sync::Replica::insert_remote_entry::{closure#0} (async fn body, query c03_remote_insert)"])
+_meta_add("C12", functions=["sync::Replica::insert_remote_entry::{closure#0} (query c03_remote_insert)", "store::DownloadPolicy::matches on a deletion marker (Kani policy_matches_marker_1_2)"])
+_meta_add("C05", functions=["store::fs::StoreInstance::entry_put::{closure#0} (query c05_put_index)", "store::fs::StoreInstance::remove_prefix_filtered (query c02_remove_prefix: no other table is touched)"])
+_meta_add("C08", functions=["store::fs::StoreInstance::entry_put::{closure#0} (query c05_put_index)"])
+_meta_add("C14", functions=["MIR call graph of module actor: callers of store::fs::Store::close_replica (query c14_gating part D)"])
+_meta_add("C07", functions=["store::fs::Store::{tables, modify_impl} (query c06_txn_glue)", "actor::Actor::close and the callers of Store::close_replica (query c14_gating parts C, D)"])
+_meta_add("C11", functions=["net::codec::BobState::run (query c10_bob_steps: an allowed request is on record)"])
 _meta_add("C09", functions=["store::<impl FromStr for FilterKind>::from_str on an arbitrary SMT string (query c09_filter_from_str_total), Display/FromStr round trip (query c15_filter_text)"])
 _meta_add("C16", functions=["actor::Actor::close (query c14_gating part C)", "store::fs::Store::register_useful_peer::{closure#0} (query c17_register_step)"])
